@@ -3,8 +3,21 @@ from __future__ import annotations
 
 from hypothesis import strategies as st
 
+import os
+
+from .. import lmlay
 from ..core import Info, require, subcheck
+from ..gen import weighted
 from ..oracles import c20_ref as R
+
+# Values at masked positions that are inf or nan make the output nan on the current tree (the weight of a
+# masked position is 0, and 0 * inf = nan): fixes/C20-masked-values-non-finite.diff,
+# replays/C20/masked-value-*.json.  Non-finite garbage is written over masked *values* only when this
+# switch is on (masked keys are always covered); turn it on once the fix is merged.
+ENABLE_NONFINITE_MASKED_VALUES = os.environ.get("VERIF_C20_PENDING", "") == "1"      # default: off
+
+SIZES = [15, 16, 17, 31, 32, 33, 63, 64, 65, 127, 128, 129, 255, 256, 257, 1023, 1024, 1025, 2049]
+LAYOUTS = lmlay.LAYOUTS
 
 PQ = 4    # queries, keys and parameters are integers / 4
 VQ = 16   # values are distinct integers / 16
@@ -39,7 +52,15 @@ def _layout(draw, allow_negative_dim):
     mask_bits = draw(st.lists(st.integers(1, 2 ** T - 1), min_size=nfib, max_size=nfib))
     return {"K": K, "p": p, "neg": bool(neg), "batch": batch, "T": T, "single": single, "has_mask": has_mask,
             "mask_bits": mask_bits, "perm": draw(st.permutations(list(range(T)))),
-            "dtype": draw(st.sampled_from(["float32", "float64", "float32"]))}
+            "dtype": draw(st.sampled_from(["float32", "float64", "float32"])),
+            # how the arguments of the judged call are presented (none of it changes the expected output):
+            # memory layouts, singleton axes passed as stride-0 expansions, what is written over masked
+            # positions, key and value being one tensor object, module state
+            "lay": {k: draw(st.sampled_from(LAYOUTS + ["own"])) for k in ("q", "k", "v", "m")},
+            "garbage_kind": draw(st.sampled_from(["finite", "huge", "nonfinite", "nonfinite"])),
+            "nonfinite": draw(st.lists(st.sampled_from(["inf", "-inf", "nan"]), min_size=1, max_size=3)),
+            "kv_same": draw(st.sampled_from([False, False, True])),
+            "calls": sorted(set(draw(st.lists(st.sampled_from(["warm_other_shape", "eval_mode", "no_grad"]), max_size=2))))}
 
 
 def _shapes(case):
@@ -121,15 +142,45 @@ def _close(what, obs, exp, tol):
         require(False, "%s (at %r)" % (what, i), float(obs[i]), float(exp[i]))
 
 
+def _garbage_kind(case):
+    kind = case.get("garbage_kind")
+    if kind is None:                       # cases stored before the non-finite class existed
+        kind = "huge" if case.get("huge") else "finite"
+    return kind
+
+
 def _garbage(case, arr, dropped, which):
-    """arr with the entries at ``dropped`` positions replaced by generated garbage."""
+    """arr with the entries at ``dropped`` positions replaced by generated garbage: small numbers, huge
+    numbers, or inf / -inf / nan (for values only with ENABLE_NONFINITE_MASKED_VALUES)."""
     import numpy as np
 
     g = np.array(case["garbage_" + which], dtype=np.float64)
     g = np.resize(g, arr.shape)
-    if case["huge"]:
+    kind = _garbage_kind(case)
+    if kind == "huge" or (kind == "nonfinite" and which == "v" and not ENABLE_NONFINITE_MASKED_VALUES):
         g = g * 1e28
+    elif kind == "nonfinite":
+        nf = np.array([float(x) for x in case.get("nonfinite") or ["nan"]], dtype=np.float64)
+        g = np.resize(nf, arr.shape)
     return np.where(dropped[..., None], g, arr)
+
+
+def _tl(case, a, dtype, which, salt=0):
+    """The tensor of array ``a`` in the memory layout the case asks for argument ``which``."""
+    if a is None:
+        return None
+    kind = (case.get("lay") or {}).get(which, "own")
+    return lmlay.relayout(_t(a, dtype), kind, 1 + salt)
+
+
+def _same_tensor(t, keep):
+    import torch
+
+    if t is None:
+        return True
+    if t.dtype == torch.bool:
+        return torch.equal(t, keep)
+    return bool(((t == keep) | (t.isnan() & keep.isnan())).all())
 
 
 def _tols(dtype, vs):
@@ -157,8 +208,16 @@ def _invariances(case, att, q, k, v, m, sh, out, tol, ref_fn):
             _close("output changed when keys/values at masked positions were replaced", out2.detach().double().numpy(),
                    obs, tol["same"])
             classes.append("masked_content_replaced")
-            if case["huge"]:
+            require(bool(np.isfinite(out2.detach().double().numpy()).all()),
+                    "output not finite after keys/values at masked positions were replaced", None, None)
+            kind = _garbage_kind(case)
+            if kind == "huge":
                 classes.append("huge_garbage")
+            if kind == "nonfinite":
+                if dk.any():
+                    classes.append("nonfinite_masked_keys")
+                if dv.any() and ENABLE_NONFINITE_MASKED_VALUES:
+                    classes.append("nonfinite_masked_values")
     # permutation of the sequence positions
     perm = list(case["perm"])
     if perm != sorted(perm):
@@ -184,7 +243,57 @@ def _invariances(case, att, q, k, v, m, sh, out, tol, ref_fn):
         classes.append("broadcast")
         if sh["q"] != fq:
             classes.append("broadcast_query")
+        # the same expansion as stride-0 views (no copy)
+        tq, tk, tv = _t(q, dtype), _t(k, dtype), _t(v, dtype)
+        tm = _t(m, dtype)
+        out5 = att(tq.expand(fq + [q.shape[-1]]), tk.expand(full + [k.shape[-1]]), tv.expand(full + [v.shape[-1]]),
+                   None if tm is None else tm.expand(full))
+        _close("call with stride-0 expanded views differs from the explicitly expanded call",
+               out5.detach().double().numpy(), o4, tol["same"])
+        classes.append("expanded_views")
     return classes
+
+
+def _judged_call(case, att, q, k, v, m, sh, dtype):
+    """The call whose output is compared with the formula: arguments in the case's memory layouts, optionally
+    key and value as one tensor object, after a call on another shape, in eval mode, under no_grad.
+    Returns (out, {"classes": [...], "v": the value array actually used, "sh": shapes})."""
+    import numpy as np
+    import torch
+
+    calls = set(case.get("calls") or [])
+    classes = []
+    tq, tk, tm = _tl(case, q, dtype, "q"), _tl(case, k, dtype, "k", 1), _tl(case, m, dtype, "m", 2)
+    if case.get("kv_same") and k.shape[-1] == v.shape[-1]:
+        # the documentation's own example passes the encoder output as key and as value
+        v, tv = k, tk
+        sh = dict(sh, v=list(sh["k"]))
+        classes.append("key_is_value_object")
+    else:
+        tv = _tl(case, v, dtype, "v", 1)
+    for t in (tq, tk, tv, tm):
+        if t is not None:
+            classes += lmlay.describe(t)
+    if "warm_other_shape" in calls:
+        # the module has already attended over a longer sequence with another batch
+        kw = torch.ones([d + 1 for d in k.shape[:-1]] + [k.shape[-1]], dtype=tk.dtype)
+        vw = torch.ones([d + 1 for d in k.shape[:-1]] + [v.shape[-1]], dtype=tk.dtype)
+        qw = torch.ones([d for i, d in enumerate(kw.shape[:-1]) if i != case["p"]] + [q.shape[-1]], dtype=tk.dtype)
+        att(qw, kw, vw, None)
+        classes.append("warm_other_shape")
+    if "eval_mode" in calls:
+        att.eval()
+        classes.append("eval_mode")
+    keeps = [None if t is None else t.clone() for t in (tq, tk, tv, tm)]
+    if "no_grad" in calls:
+        with torch.no_grad():
+            out = att(tq, tk, tv, tm)
+        classes.append("no_grad")
+    else:
+        out = att(tq, tk, tv, tm)
+    for name, t, keep in zip(("query", "key", "value", "mask"), (tq, tk, tv, tm), keeps):
+        require(_same_tensor(t, keep), "the %s tensor was modified by the call" % name, None, None)
+    return out, {"classes": sorted(set(classes)), "v": v, "sh": sh}
 
 
 # ------------------------------------------------------------------ single-head flavours
@@ -205,11 +314,13 @@ def _single_case(draw, tier):
         "v_vals": draw(st.lists(st.integers(-512, 512), min_size=nfull * D, max_size=nfull * D, unique=True)),
         "garbage_k": draw(_ints(5, -40, 40)), "garbage_v": draw(_ints(5, -4000, 4000)),
         "huge": draw(st.sampled_from([False, True])),
+        # keys times 2**k: scores of huge magnitude (exactly representable, see the check)
+        "key_scale_exp": draw(st.sampled_from([0, 0, 0, 10, 40, 100])) if flavour != "concat" else 0,
     })
     if flavour == "dot":
         case["params"] = {"scale": draw(st.sampled_from([4, 2, 1, 8, -4, 0]))}
     elif flavour == "general":
-        bias = draw(st.booleans())
+        bias = draw(st.booleans()) and not case["key_scale_exp"]
         case["params"] = {"weight": draw(_ints(Q * Kf, -2 * PQ, 2 * PQ)),
                           "bias": draw(_ints(Q, -2 * PQ, 2 * PQ)) if bias else None}
     else:
@@ -251,7 +362,9 @@ def _make_single(flavour, params, Q, Kf, dim, dtype):
               "negative index), singleton (broadcast) batch axes in query/key/value/mask, masks with >=1 kept position: "
               "documented formula (NumPy float64), convexity, masked-content / permutation invariance, broadcast == expanded",
           required_classes=["mask_mixed_group>=3", "broadcast_query", "masked_content_replaced", "permuted",
-                            "negative_dim", "dot", "general", "concat", "no_mask"])
+                            "negative_dim", "dot", "general", "concat", "no_mask", "nonfinite_masked_keys",
+                            "expanded_views", "huge_scores", "key_is_value_object", "warm_other_shape", "eval_mode",
+                            "no_grad", "storage_offset", "non_contiguous"])
 def _single_check(case):
     import numpy as np
 
@@ -260,8 +373,15 @@ def _single_check(case):
     q, k, v, m, sh = _arrays(case, Q, Kf, D)
     dim = p - K if case["neg"] else p
     att, ref = _make_single(flavour, case["params"], Q, Kf, dim, dtype)
-    out = att(_t(q, dtype), _t(k, dtype), _t(v, dtype), _t(m, dtype))
+    kse = case.get("key_scale_exp", 0)
+    if kse:
+        # q, k and the parameters are small multiples of 1/4, so every score is a small integer multiple of a
+        # power of two: exact in float32 and float64 alike, also after this scaling (no bias in that case)
+        k = k * 2.0 ** kse
+    out, call_classes = _judged_call(case, att, q, k, v, m, sh, dtype)
     obs = out.detach().double().numpy()
+    v = call_classes.pop("v")
+    sh = call_classes.pop("sh")
     vs = 1.0 + float(np.abs(v).max())
     tol = _tols(dtype, vs)
     # the documented computation
@@ -277,8 +397,10 @@ def _single_check(case):
         i = tuple(int(x) for x in bad[0])
         require(False, "output coordinate %r lies outside [min, max] of the kept values" % (i,), float(obs[i]),
                 [float(lo[i]), float(hi[i])])
-    classes = [flavour, dtype, "key_rank_%d" % K]
+    classes = [flavour, dtype, "key_rank_%d" % K] + call_classes["classes"]
     classes += _invariances(case, att, q, k, v, m, sh, out, tol, None)
+    if kse:
+        classes.append("huge_scores")
     if case["neg"]:
         classes.append("negative_dim")
     mixed = False
@@ -345,7 +467,9 @@ def _multi_case(draw, tier):
               "four bias flags drawn independently, masks and broadcast axes: bias exactly where requested; output == "
               "WC(concat_h head_h(WQ q, WK k, WV v, mask)) computed head by head in NumPy with the module's weights; "
               "masked-content / permutation invariance, broadcast == expanded",
-          required_classes=["mask", "unequal_bias_flags", "heads>=2", "masked_content_replaced", "batch_equals_heads"])
+          required_classes=["mask", "unequal_bias_flags", "heads>=2", "masked_content_replaced", "batch_equals_heads",
+                            "nonfinite_masked_keys", "expanded_views", "key_is_value_object", "warm_other_shape",
+                            "storage_offset", "non_contiguous"])
 def _multi_check(case):
     import numpy as np
     import torch
@@ -384,13 +508,16 @@ def _multi_check(case):
         ref = {n: _np(getattr(single, n)) for n in _make_params}
     W = {"WQ": _np(att.WQ.weight), "WK": _np(att.WK.weight), "WV": _np(att.WV.weight), "WC": _np(att.WC.weight),
          "bQ": _np(att.WQ.bias), "bK": _np(att.WK.bias), "bV": _np(att.WV.bias), "bC": _np(att.WC.bias)}
-    out = att(_t(q, dtype), _t(k, dtype), _t(v, dtype), _t(m, dtype))
+    if Kf != D:
+        case = dict(case, kv_same=False)
+    out, call_classes = _judged_call(case, att, q, k, v, m, sh, dtype)
+    v, sh = call_classes.pop("v"), call_classes.pop("sh")
     obs = out.detach().double().numpy()
     exp = R.multi_head(inner, ref, W, q, k, v, m, p, H)
     vs = 1.0 + float(np.abs(exp).max()) + float(np.abs(v).max()) * (1.0 + float(np.abs(W["WV"]).sum()))
     tol = _tols(dtype, vs)
     _close("output differs from WC(concat_h head_h(WQ q, WK k, WV v, mask))", obs, exp, tol["formula"])
-    classes = ["inner_" + inner, dtype, "heads_%d" % H]
+    classes = ["inner_" + inner, dtype, "heads_%d" % H] + call_classes["classes"]
     classes += _invariances(case, att, q, k, v, m, sh, out, tol, None)
     if m is not None:
         classes.append("mask")
@@ -507,3 +634,174 @@ def _long_check(case):
         _close("long sequence: output changed under a rotation of the sequence positions", out2.detach().double().numpy(), obs,
                (2e-4 if dtype == "float32" else 1e-10) * vs)
     return Info(nontrivial=T > 1024, classes=classes)
+
+
+# ------------------------------------------------------------------ sizes across implementation thresholds
+#
+# One dimension (sequence length, batch, query/key size, value size, number of heads) is taken through
+# SIZES inside every case, as prefixes of tensors expanded deterministically from a few generated integers.
+
+HEAD_SIZES = [15, 16, 17, 31, 32, 33, 63, 64, 65]
+
+
+@st.composite
+def _large_case(draw, tier, which):
+    sizes = HEAD_SIZES if which == "H" else SIZES + ([4099] if tier == "thorough" and which == "T" else [])
+    return {
+        "which": which,
+        "sizes": draw(weighted((1, st.lists(st.sampled_from(sizes), min_size=1, max_size=4, unique=True)), (9, st.just(sizes)))),
+        "B": draw(st.sampled_from([1, 2, 3])), "T": draw(st.sampled_from([3, 4, 5])), "p": draw(st.sampled_from([0, 1])),
+        "neg": draw(st.booleans()), "flavour": draw(st.sampled_from(["dot", "general"])),
+        "Q": draw(st.sampled_from([1, 2, 3])), "D": draw(st.sampled_from([1, 2])),
+        "ka": draw(st.integers(1, 97)), "kb": draw(st.integers(0, 50)), "km": draw(st.sampled_from([7, 11, 13, 17])),
+        "va": draw(st.integers(1, 4000)), "wa": draw(st.integers(1, 50)), "wb": draw(st.integers(1, 50)),
+        "mask_mod": draw(st.sampled_from([0, 2, 3, 5, 64])),
+        "q3": draw(_ints(3, -2 * PQ, 2 * PQ)), "scale": draw(st.sampled_from([4, 1, 2, 8])),
+        "d": draw(st.sampled_from([1, 2])), "bias_flags": [draw(st.booleans()) for _ in range(4)],
+        "dtype": draw(st.sampled_from(["float32", "float64"])),
+        "lay": {k: draw(st.sampled_from(LAYOUTS + ["own"])) for k in ("q", "k", "v", "m")},
+    }
+
+
+def _large_check(case):
+    import numpy as np
+    import torch
+    from pydrobert.torch.modules import (DotProductSoftAttention, GeneralizedDotProductSoftAttention,
+                                         MultiHeadedAttention)
+
+    which, sizes, dtype, p = case["which"], sorted(case["sizes"]), case["dtype"], case["p"]
+    nmax = max(sizes)
+    B, T, Q, D = case["B"], case["T"], case["Q"], case["D"]
+    if which == "T":
+        T = nmax
+    elif which == "B":
+        B = nmax
+    elif which == "Q":
+        Q = nmax
+    elif which == "D":
+        D = nmax
+    t = np.arange(T, dtype=np.int64)[None, :, None]
+    b = np.arange(B, dtype=np.int64)[:, None, None]
+    P = 10007
+    km = case["km"]
+    jq = np.arange(Q, dtype=np.int64)[None, None, :]
+    jd = np.arange(D, dtype=np.int64)[None, None, :]
+    kq = (((case["ka"] * (t + 3 * jq) + case["kb"] * b) % km) - km // 2) / PQ                 # (B, T, Q)
+    vv = ((case["va"] * (t + 1) + 131 * b + 17 * jd) % P).astype(np.float64) / VQ             # (B, T, D)
+    if case["mask_mod"]:
+        mm = ((t[..., 0] + b[..., 0]) % case["mask_mod"]) != 0                                 # (B, T)
+    else:
+        mm = None
+    # the query is zero except at (up to) three coordinates, among them the first and the last: scores stay
+    # small and exactly representable whatever the size of the feature axis
+    def query(n):
+        qv = np.zeros((B, n), dtype=np.float64)
+        for pos, val in zip((0, n // 2, n - 1), case["q3"]):
+            qv[:, pos] = val / PQ
+        return qv
+    # generalised flavour: a sparse dyadic matrix (one entry in seven non-zero)
+    ii, jj = np.arange(Q, dtype=np.int64)[:, None], np.arange(Q, dtype=np.int64)[None, :]
+    Wfull = np.where((ii + 2 * jj) % 7 == 0, ((case["wa"] * ii + case["wb"] * jj) % 5 - 2) / PQ, 0.0)
+    if p == 0:
+        kq, vv = kq.transpose(1, 0, 2), vv.transpose(1, 0, 2)
+        mm = None if mm is None else mm.T
+    tk, tv = _tl(case, np.ascontiguousarray(kq), dtype, "k"), _tl(case, np.ascontiguousarray(vv), dtype, "v", 1)
+    tm = None if mm is None else _tl(case, np.ascontiguousarray(mm), dtype, "m", 2)
+    keeps = [tk.clone(), tv.clone(), None if tm is None else tm.clone()]
+    classes = set(["p_%d" % p, dtype])
+    for x in (tk, tv, tm):
+        if x is not None:
+            classes.update(lmlay.describe(x))
+    tdt = getattr(torch, dtype)
+
+    def cut(arr, n_t=None, n_b=None, n_f=None):
+        """prefix along the sequence / batch / feature axis (works for ndarrays and tensors alike)"""
+        sl = [slice(None)] * 3
+        if n_t is not None:
+            sl[p] = slice(0, n_t)
+        if n_b is not None:
+            sl[1 - p] = slice(0, n_b)
+        if n_f is not None:
+            sl[2] = slice(0, n_f)
+        return arr[tuple(sl[:arr.ndim])]
+
+    for n in sizes:
+        n_t = n if which == "T" else None
+        n_b = n if which == "B" else None
+        k_n, v_n = cut(kq, n_t, n_b, n if which == "Q" else None), cut(vv, n_t, n_b, n if which == "D" else None)
+        tk_n, tv_n = cut(tk, n_t, n_b, n if which == "Q" else None), cut(tv, n_t, n_b, n if which == "D" else None)
+        m_n = tm_n = None
+        if mm is not None:
+            m_n = np.array(cut(mm, n_t, n_b))
+            idx = [slice(None)] * 2
+            idx[p] = -1
+            m_n[tuple(idx)] = True                       # at least one kept position per group
+            tm_n = lmlay.relayout(_t(m_n, dtype), (case.get("lay") or {}).get("m", "own"), 2)
+            classes.add("mask")
+        Qn = k_n.shape[-1]
+        Bn = k_n.shape[1 - p]
+        q_n = query(Qn)[:Bn]
+        tq_n = _tl(case, q_n, dtype, "q")
+        dim = p - 3 if (case["neg"] and p >= 1 and which != "H") else p
+        if which == "H":
+            d, H = case["d"], n
+            single = DotProductSoftAttention(d, p, case["scale"] / PQ)
+            fq, fk, fv, fc = (bool(f) for f in case["bias_flags"])
+            att = MultiHeadedAttention(Qn, Qn, v_n.shape[-1], H, single, d_v=d, bias_WQ=fq, bias_WK=fk, bias_WV=fv, bias_WC=fc)
+            with torch.no_grad():
+                for name, lin in (("WQ", att.WQ), ("WK", att.WK), ("WV", att.WV), ("WC", att.WC)):
+                    r_, c_ = lin.weight.shape
+                    w = ((case["wa"] * torch.arange(r_)[:, None] + case["wb"] * torch.arange(c_)[None, :] + len(name)) % 5 - 2) / PQ
+                    lin.weight.copy_(w)
+                    if lin.bias is not None:
+                        lin.bias.copy_(((torch.arange(r_) * 3 + 1) % 5 - 2) / PQ)
+            att = att.to(tdt)
+            W = {"WQ": _np(att.WQ.weight), "WK": _np(att.WK.weight), "WV": _np(att.WV.weight), "WC": _np(att.WC.weight),
+                 "bQ": _np(att.WQ.bias), "bK": _np(att.WK.bias), "bV": _np(att.WV.bias), "bC": _np(att.WC.bias)}
+            exp = R.multi_head("dot", {"scale": case["scale"] / PQ}, W, q_n, k_n, v_n, m_n, p, H)
+            vs = 1.0 + float(np.abs(exp).max()) + float(np.abs(v_n).max()) * (1.0 + float(np.abs(W["WV"]).sum(1).max()) * float(np.abs(W["WC"]).sum(1).max()))
+            lo = hi = None
+        else:
+            if case["flavour"] == "dot":
+                att = DotProductSoftAttention(Qn, dim, case["scale"] / PQ)
+                ref, flav = {"scale": case["scale"] / PQ}, "dot"
+            else:
+                att = GeneralizedDotProductSoftAttention(Qn, Qn, dim, False)
+                with torch.no_grad():
+                    att.weight.copy_(torch.tensor(Wfull[:Qn, :Qn].tolist(), dtype=torch.float64))
+                ref, flav = {"weight": _np(att.weight), "bias": None}, "general"
+            att = att.to(tdt)
+            classes.add(flav)
+            exp = R.single_head(flav, ref, q_n, k_n, v_n, m_n, p)
+            vs = 1.0 + float(np.abs(v_n).max())
+            e_shape = np.broadcast_shapes(tuple(list(q_n.shape[:p]) + [1] + list(q_n.shape[p:-1])), k_n.shape[:-1])
+            lo, hi = R.kept_bounds(v_n, m_n, e_shape, p)
+        out = att(tq_n, tk_n, tv_n, tm_n)
+        obs = out.detach().double().numpy()
+        _close("%s=%d: output differs from softmax(masked score) weighted sum of values" % (which, n), obs, exp,
+               (5e-4 if dtype == "float32" else 1e-9) * vs)
+        if lo is not None:
+            slack = (1e-4 if dtype == "float32" else 1e-10) * vs
+            require(bool(((obs >= lo - slack) & (obs <= hi + slack)).all()),
+                    "%s=%d: output outside [min, max] of the kept values" % (which, n),
+                    [float(obs.min()), float(obs.max())], [float(lo.min()), float(hi.max())])
+        classes.add("%s=%d" % (which, n))
+    for name, x, keep in zip(("key", "value", "mask"), (tk, tv, tm), keeps):
+        require(_same_tensor(x, keep), "the %s tensor was modified by the call" % name, None, None)
+    return Info(nontrivial=nmax >= 1024 or which == "H", classes=sorted(classes))
+
+
+_LARGE = [
+    ("T", 12, 100, "sequence lengths 15..2049 (thorough: ..4099), prefixes of one key/value/mask"),
+    ("B", 12, 100, "batch sizes 15..2049, prefixes of one key/value/mask"),
+    ("Q", 12, 100, "query/key sizes 15..2049 (query non-zero at the first, middle and last coordinate; generalised flavour with "
+                 "a sparse dyadic matrix)"),
+    ("D", 12, 100, "value sizes 15..2049"),
+    ("H", 12, 100, "multi-headed attention with 15..65 heads over dot-product heads, bias flags generated"),
+]
+for _k, _nq, _nt, _doc in _LARGE:
+    _req = [15, 16, 17, 63, 64, 65] if _k == "H" else [15, 16, 17, 1023, 1024, 1025, 2049]
+    subcheck("C20", "attn_large_" + _k, (lambda tier, _k=_k: _large_case(tier, _k)), _nq, _nt,
+             doc=_doc + "; every size inside each case, inputs expanded from a few integers, arguments in generated memory "
+                        "layouts; == documented formula in NumPy float64 (+ convexity for the single-head flavours)",
+             required_classes=["%s=%d" % (_k, n) for n in _req])(_large_check)
